@@ -1154,6 +1154,45 @@ func (w *vrWorld) lock2(id types.FileContractID) {
 		}
 		return err
 	})
+	w.noteLock2(id, st, cls, err)
+}
+
+// lock2Waiting: a second caller is already waiting in LockV2Contract(id) while the holder of
+// the lock runs `during` (a renewal, as the RHP4 server does under the contract's lock); what the
+// waiter is handed after the holder's unlock is the state at that moment, i.e. after `during`.
+func (w *vrWorld) lock2Waiting(id types.FileContractID, during func()) {
+	_, unlock, err := w.cm.LockV2Contract(id)
+	if err != nil {
+		during()
+		return
+	}
+	type res struct {
+		st  rhp4.RevisionState
+		cls string
+		err error
+	}
+	got := make(chan res, 1)
+	go func() {
+		var st rhp4.RevisionState
+		cls, err, _ := vrCall(func() error {
+			s, u, err := w.cm.LockV2Contract(id)
+			if err == nil {
+				u()
+				st = s
+			}
+			return err
+		})
+		got <- res{st, cls, err}
+	}()
+	time.Sleep(40 * time.Millisecond) // the waiter is blocked by now (if not, it simply locks afterwards)
+	during()
+	unlock()
+	r := <-got
+	w.em.Count("op:Lock2:waited-through-renewal")
+	w.noteLock2(id, r.st, r.cls, r.err)
+}
+
+func (w *vrWorld) noteLock2(id types.FileContractID, st rhp4.RevisionState, cls string, err error) {
 	obs := "OLock2 (" + cls + ")"
 	if err == nil {
 		obs = fmt.Sprintf("OLock2 (Ok (%d, %s, %s, %s))", st.Revision.RevisionNumber, coqBool(st.Renewed), coqBool(st.Revisable), w.coqRoots(st.Roots))
